@@ -93,12 +93,21 @@ def validFilter (f : Filter) : Bool :=
   (match f.since, f.until_ with | some s, some u => !Gen.filterSinceUntilBad s u | _, _ => true) &&
   (match f.limit with | some l => !Gen.filterLimitBad l | none => true)
 
-/-- `ValidClientMsg` -/
+/-- `ValidClientMsg`: the dispatch on the message type (pinned: `validDispatchExpected`) to the `Valid` method of
+    each type; a parsed message is never nil -/
 def validClientMsg : ClientMsg → Bool
-  | .event e => validEvent e
+  | .event e => Gen.clientEventValid true (validEvent e)
   | .req _ fs => !Gen.reqNoFilters fs.length && fs.all validFilter
-  | .close _ => true
-  | .auth e => validEvent e
+  | .close _ => Gen.clientCloseValid true
+  | .auth e => Gen.clientAuthValid true (validEvent e)
   | .count _ fs => !Gen.countNoFilters fs.length && fs.all validFilter
+
+def validDispatchActual : List String := [Gen.validClientMsgBody, Gen.clientReqValidBody, Gen.clientCountValidBody]
+
+/-- the source text of the dispatcher and of the two list-carrying `Valid` methods the model follows -/
+def validDispatchExpected : List String :=
+  ["{ if msg == nil { return false } switch msg := msg.(type) { case *ClientEventMsg: return msg.Valid() case *ClientReqMsg: return msg.Valid() case *ClientCloseMsg: return msg.Valid() case *ClientAuthMsg: return msg.Valid() case *ClientCountMsg: return msg.Valid() default: return false } }",
+   "{ if msg == nil { return } if len(msg.ReqFilters) == 0 { return } if !sliceAllFunc(msg.ReqFilters, func(f *ReqFilter) bool { return f.Valid() }) { return } ok = true return }",
+   "{ if msg == nil { return } if len(msg.ReqFilters) == 0 { return } if !sliceAllFunc(msg.ReqFilters, func(f *ReqFilter) bool { return f.Valid() }) { return } ok = true return }"]
 
 end Moc
